@@ -276,6 +276,26 @@ pub fn family(tier: Tier) -> Vec<R> {
         out.push(R::node(Tag::SetExt, vec![R::pair(Tag::Sim, x.clone(), y.clone()), a.clone()]));
         out.push(R::node(Tag::SetExt, vec![a.clone(), R::pair(Tag::Sim, y.clone(), x.clone())]));
     }
+    // symmetric statements whose two operands agree down to a depth of 1..8 (and 20) levels and differ only in the leaf
+    // below, both operand orders, bare and as elements of a set (an ordering key that looks a few levels deep ties)
+    for d in [1usize, 2, 3, 4, 5, 6, 7, 8, 20] {
+        for &wrap in &[Tag::Neg, Tag::Product, Tag::SetExt] {
+            let tower = |leaf: &R| {
+                let mut t = leaf.clone();
+                for _ in 0..d {
+                    t = R::node(wrap, vec![t]);
+                }
+                t
+            };
+            let (x, y) = (tower(&a), tower(&b));
+            for &t in &sym_tags {
+                out.push(R::pair(t, x.clone(), y.clone()));
+                out.push(R::pair(t, y.clone(), x.clone()));
+                out.push(R::node(Tag::SetExt, vec![R::pair(t, x.clone(), y.clone()), c.clone()]));
+                out.push(R::node(Tag::SetExt, vec![c.clone(), R::pair(t, y.clone(), x.clone())]));
+            }
+        }
+    }
     // hash twins as siblings (every ordered pair, every unordered constructor and symmetric statement)
     {
         let mut tags = set_tags.clone();
@@ -414,17 +434,17 @@ pub fn builds(run: &Run) -> Vec<Build> {
     // BIG_KEYS keys and in two insertion orders; sizes straddle hashbrown's growth steps
     // (3/4, 7/8, 14/15, 28/29 elements) so that differently grown tables are compared too
     let big_keys: u64 = tier.pick(6, 16);
-    run.bound("large_set_sizes", json!([5, 8, 9, 15, 16, 29, 33, 64, 65, 130]));
+    run.bound("large_set_sizes", json!([5, 8, 9, 15, 16, 29, 33, 64, 65, 130, 256, 257, 300]));
     run.bound("large_set_keys_each", json!(big_keys));
     let mut big: Vec<(R, Vec<u64>)> = vec![];
     for &tag in &[Tag::SetExt, Tag::Conj, Tag::IntExt] {
-        for n in [5usize, 8, 9, 15, 16, 29, 33, 64, 65, 130] {
+        for n in [5usize, 8, 9, 15, 16, 29, 33, 64, 65, 130, 256, 257, 300] {
             let elems: Vec<R> = (0..n).map(|i| R::word(&format!("w{i}"))).collect();
             let rev: Vec<R> = elems.iter().rev().cloned().collect();
             for k in 0..big_keys {
                 big.push((R::node(tag, elems.clone()), vec![k]));
                 big.push((R::node(tag, rev.clone()), vec![k]));
-                if n == 9 || n == 16 || n == 65 {
+                if n == 9 || n == 16 || n == 65 || n == 300 {
                     // nested: the large set as an element of a small set and of a symmetric statement
                     big.push((R::node(Tag::SetInt, vec![R::node(tag, elems.clone()), R::word("x")]), vec![k, 0]));
                     big.push((R::node(Tag::SetInt, vec![R::word("x"), R::node(tag, rev.clone())]), vec![k + 1, 1]));
